@@ -146,7 +146,8 @@ def dyadic_unit4(r):
 
 # ---- real single-component variables of every kind: colvar::dist2 / dist2_lgrad / dist2_rgrad / wrap ----
 SCALAR_KINDS = ["distance", "eulerTheta", "polarTheta", "tilt", "orientationAngle"]
-PERIODIC_KINDS = ["dihedral", "spinAngle", "eulerPhi", "eulerPsi", "polarPhi"]       # period 360, wrapAround configurable
+PERIODIC_KINDS = ["dihedral", "spinAngle", "eulerPhi", "eulerPsi", "polarPhi", "dihedralSum"]       # period 360, wrapAround configurable
+# dihedralCoeff2: a periodic component with coefficient 2 makes a NON-periodic variable (documented: "will not be treated as periodic")
 WRAP_CENTRES = [0.0, 90.0, -180.0, 180.0, 45.5, -77.25]
 SCRIPTED_PERIODS = [360.0, 2.0, 8.0]
 
@@ -161,7 +162,9 @@ class CGroup:
         m = r.random()
         self.P = None; self.c = 0.0; self.n = 1; self.manifold = False
         if m < 0.15:
-            self.kind = r.choice(SCALAR_KINDS); self.cls = "scalar"
+            self.kind = r.choice(SCALAR_KINDS + ["dihedralCoeff2"]); self.cls = "scalar"
+            if self.kind == "dihedralCoeff2":
+                self.c = r.choice(WRAP_CENTRES)
         elif m < 0.50:
             self.kind = r.choice(PERIODIC_KINDS); self.cls = "periodic"; self.P = 360.0; self.c = r.choice(WRAP_CENTRES)
         elif m < 0.65:
@@ -451,14 +454,24 @@ def oracle_misc(line, out):
             # no documented "undefined" error was raised: the result must be on the manifold
             if any(math.isnan(a) for a in val) or not close(sum(a * a for a in val), 1.0):
                 return "interpolation between the %ss %r and %r at lambda=%r returned %r without raising the undefined-result error: not on the manifold" % (what, x1, x2, lam, val)
-            if lam == 0.0 and not all(close(a, b) for a, b in zip(val, x1)):
-                return "interpolation at lambda=0 does not return the first end point"
-            if lam == 1.0 and not all(close(a, b) for a, b in zip(val, x2)):
-                return "interpolation at lambda=1 does not return the second end point"
+            # end points: the value itself; for quaternions q and -q are the same point of the manifold (the tie still pins which one)
+            same = lambda u, v: all(close(a, b) for a, b in zip(u, v)) or (nn == 4 and all(close(a, -b) for a, b in zip(u, v)))
+            if lam == 0.0 and not same(val, x1):
+                return "interpolation between %r and %r at lambda=0 returned %r, not the first end point" % (x1, x2, val)
+            if lam == 1.0 and not same(val, x2):
+                return "interpolation between %r and %r at lambda=1 returned %r, not the second end point" % (x1, x2, val)
         else:
             lin = [(1 - lam) * a + lam * b for a, b in zip(x1, x2)]
             if math.sqrt(sum(a * a for a in lin)) > 1e-3:
                 return "interpolation between %r and %r at lambda=%r raised the undefined-result error although the combination %r is far from zero" % (x1, x2, lam, lin)
+    elif w[0] in ("ISC", "IV3", "IVEC"):
+        v = [float.fromhex(t) for t in (w[2:] if w[0] == "IVEC" else w[1:])]
+        lam = v[-1]; nn = (len(v) - 1) // 2
+        x1, x2 = v[:nn], v[nn:2 * nn]
+        if lam == 0.0 and not all(close(a, b) for a, b in zip(o, x1)):
+            return "interpolation between %r and %r at lambda=0 returned %r, not the first end point" % (x1, x2, o)
+        if lam == 1.0 and not all(close(a, b) for a, b in zip(o, x2)):
+            return "interpolation between %r and %r at lambda=1 returned %r, not the second end point" % (x1, x2, o)
     elif w[0] == "AC":
         x = [float.fromhex(t) for t in w[2:]]
         nrm = math.sqrt(sum(a * a for a in x))
@@ -550,6 +563,10 @@ def check(run):
             run.violation("metric:%s:self" % sigk, "dist2(x,x) = %r is not zero for %s" % (same[0], g.lines[2]), rep)
         if nontriv and g.kind in ("SC", "V3", "VEC") and not d2 > 0:
             run.violation("metric:%s:zero" % sigk, "dist2 = 0 for different values %s" % g.lines[0], rep)
+        if g.kind == "DV":
+            # gradient with respect to the second argument = left gradient with the arguments exchanged
+            if len(base) != 7 or len(sw) != 7 or not all(close(a, b, 1e-8) for a, b in zip(base[4:7], sw[1:4])):
+                run.violation("metric:%s:rgrad" % sigk, "distanceVec: dist2_rgrad(x1,x2) = %r but dist2_lgrad(x2,x1) = %r for %s" % (base[4:7], sw[1:4], g.lines[0]), rep)
         for j in g.inv:
             o = parse(impl[g.off + j])
             if o is None or not close(d2, o[0], 1e-8):
@@ -557,7 +574,7 @@ def check(run):
         if g.fd:
             j, e, h = g.fd
             p, m = parse(impl[g.off + j]), parse(impl[g.off + j + 1])
-            grad = base[1:]
+            grad = base[1:1 + len(g.x1)]
             if p is None or m is None or len(grad) != len(e):
                 run.violation("grad:%s:shape" % sigk, "gradient has the wrong shape for %s" % g.lines[0], rep)
                 continue
